@@ -82,20 +82,43 @@ class _ChildConn(CountingConn):
 
 
 _SESSION = None
+ENGINE = ["duckdb"]     # engine of THIS process (sqlframe sessions are process-wide singletons): set by the worker
 
 
-def get_session():
-    """the process-wide DuckDB session, created with the counting proxy as conn="""
+class _NoConn:
+    """statement counter of an engine without a connection (Standalone only generates SQL)"""
+    n = 0
+    log: list = []
+
+
+def get_session(engine=None):
+    """the process-wide session: DuckDB with the counting proxy as conn=, or the connection-less Standalone session
+    (the engine whose DataFrame class is BaseDataFrame itself: cache()/persist() are real there)"""
     global _SESSION
+    engine = engine or ENGINE[0]
     if _SESSION is None:
-        import duckdb
-        from sqlframe.duckdb import DuckDBSession
-        proxy = CountingConn(duckdb.connect())
-        s = DuckDBSession(conn=proxy)
-        if s._conn is not proxy:
-            raise RuntimeError("a DuckDB session existed before the counting proxy could be installed")
-        _SESSION = (s, proxy)
+        ENGINE[0] = engine
+        if engine == "standalone":
+            from sqlframe.standalone import StandaloneSession
+            _SESSION = (StandaloneSession(), _NoConn())
+        else:
+            import duckdb
+            from sqlframe.duckdb import DuckDBSession
+            proxy = CountingConn(duckdb.connect())
+            s = DuckDBSession(conn=proxy)
+            if s._conn is not proxy:
+                raise RuntimeError("a DuckDB session existed before the counting proxy could be installed")
+            # a table the sqlframe catalog has never seen: session.sql("SELECT * FROM c04_star") keeps a bare `*`
+            proxy._real.execute("CREATE TABLE IF NOT EXISTS c04_star AS SELECT * FROM (VALUES (1, 2, 'x'), (3, 4, 'y'), "
+                                "(NULL, 5, 'x')) t(a, b, s)")
+            _SESSION = (s, proxy)
+    elif ENGINE[0] != engine:
+        raise RuntimeError(f"this process already has a {ENGINE[0]} session")
     return _SESSION
+
+
+def engine_of(state: str) -> str:
+    return "standalone" if state.startswith("SA:") else "duckdb"
 
 
 # ------------------------------------------------------------------------------------------------------------
@@ -159,7 +182,18 @@ def mk_alphabet():
     add("na_drop", "na.drop", lambda R, d, o: d.na.drop(), resolve="always")
     add("na_fill", "na.fill", lambda R, d, o: d.na.fill(0))
     add("na_replace", "na.replace", lambda R, d, o: d.na.replace(1, 2))
-    add("toDF", "toDF", lambda R, d, o: d.toDF(*[f"n{i}" for i in range(len(d.columns))]), resolve="never")
+    add("toDF", "toDF", lambda R, d, o: d.toDF(*[f"n{i}" for i in range(len(d.columns))]),
+        lambda R: ("DNames", [f"n{i}" for i in range(len(R.cols))]))
+    # every method that takes NAMES also gets a shape whose names differ from existing columns by letter case only
+    add("toDF_case", "toDF", lambda R, d, o: d.toDF(*[U(c) for c in R.cols]), lambda R: ("DNames", [U(c) for c in R.cols]))
+    add("groupBy_agg_case", "groupBy.agg", lambda R, d, o: d.groupBy(R.c0).agg(R.F.max(R.c1).alias(U(R.c0))),
+        lambda R: _dargs(("CStr", R.c0), ("CAliased", U(R.c0))))
+    add("unpivot_case", "unpivot", lambda R, d, o: d.unpivot(R.c0, [R.c1], U(R.c0), U(R.c1)), resolve="always", setop=True,
+        rebuilt=True)
+    add("unionByName_self", "unionByName", lambda R, d, o: d.unionByName(d), other="d", setop=True)
+    # BaseDataFrame's own cache()/persist() (engines with cache support; here: Standalone)
+    add("cache_base", "cache@base", lambda R, d, o: d.cache(), resolve="always")
+    add("persist_base", "persist@base", lambda R, d, o: d.persist(), resolve="always")
     add("copy", "copy", lambda R, d, o: d.copy(), resolve="never")
     add("copy_copy", "__copy__", lambda R, d, o: __import__("copy").copy(d), resolve="never")
     add("cache", "cache", lambda R, d, o: d.cache(), resolve="never", retself=True)
@@ -255,7 +289,19 @@ STATES = {
     "HINT_where": ["hint_broadcast", "where"],
     "REPARTITION": ["repartition"],
     "REPARTITION_where": ["repartition", "where"],
+    # a frame whose projection is a bare `*` (session.sql over a table the catalog has not seen)
+    "STAR": [],
+    "STAR_distinct": ["distinct"],
+    # Standalone session (BaseDataFrame's own method resolution order; cache()/persist() are real; no connection)
+    "SA:WHERE": ["where"],
+    "SA:CACHE": ["cache_base"],
+    "SA:CACHE_where": ["cache_base", "where"],
+    "SA:SELECT_cache": ["select_same3", "cache_base"],
+    "SA:PERSIST_join": ["persist_base", "join_base"],
 }
+BASE_OF = {"STAR": "star", "STAR_distinct": "star"}
+STAR_KEYS = ["union_self", "unionByName_self", "toDF", "limit", "distinct", "dropDuplicates", "select_star", "alias",
+             "hint_broadcast", "collect", "count", "sql", "columns", "cache"]
 HINT_STATES = {"HINT", "HINT_join", "HINT_where", "REPARTITION", "REPARTITION_where"}
 
 
@@ -313,8 +359,13 @@ class Run:
     ALIAS_CTR = [0]
 
     def __init__(self, with_schema=False):
-        import sqlframe.duckdb.functions as F
+        if ENGINE[0] == "standalone":
+            import sqlframe.standalone.functions as F
+            with_schema = False
+        else:
+            import sqlframe.duckdb.functions as F
         from sqlframe.base.util import get_tables_from_expression_with_join
+        self.engine = ENGINE[0]
         self.F = F
         self._gtj = get_tables_from_expression_with_join
         self.session, self.proxy = get_session()
@@ -326,6 +377,7 @@ class Run:
         self.obs_order: list[tuple] = []     # (var, round) in the order the observations were made
         self.with_schema = with_schema
         self.c0 = self.c1 = self.num_col = None
+        self.cols = []
 
     def fresh_alias(self):
         Run.ALIAS_CTR[0] += 1
@@ -383,9 +435,12 @@ class Run:
 
     # ---- steps
     def create(self, var, snap=False):
-        rows, cols = BASE_ROWS[var]
         n0 = self.proxy.n
-        d = self.session.createDataFrame(rows, cols)
+        if var == "star":
+            d = self.session.sql("SELECT * FROM c04_star")
+        else:
+            rows, cols = BASE_ROWS[var]
+            d = self.session.createDataFrame(rows, cols)
         self.vars[var] = d
         self.order.append(var)
         self.steps.append({"kind": "create", "var": var, "res": self.resinfo(d), "snap": self.snapshot() if snap else None,
@@ -393,7 +448,8 @@ class Run:
 
     def set_cols(self, d):
         cols = [c.lower() for c in d.expression.named_selects]
-        self.c0, self.c1 = cols[0], cols[1]
+        self.cols = cols
+        self.c0, self.c1 = cols[0], cols[1 if len(cols) > 1 else 0]
         self.num_col = next((c for c in cols if c in ("a", "b", "c", "sb", "k", "v")), cols[0])
 
     def call(self, recv, key, resvar=None, snap=True):
@@ -438,7 +494,7 @@ class Run:
         try:
             o["columns"] = list(d.columns)
             o["sql"] = canon_sql(d.sql(optimize=False, pretty=False))
-            if collect:
+            if collect and self.engine == "duckdb":
                 rows = d.collect()
                 o["row_names"] = list(rows[0].__fields__) if rows else []
                 o["rows"] = sorted([tuple(r) for r in rows], key=repr)
@@ -457,7 +513,7 @@ class _Ctx:
 
     def __init__(self, run: Run):
         self.F = run.F
-        self.c0, self.c1, self.num = run.c0, run.c1, run.num_col
+        self.c0, self.c1, self.num, self.cols = run.c0, run.c1, run.num_col, list(run.cols)
         self.fresh_alias = run.fresh_alias
         self.quiet = run.quiet
 
@@ -465,7 +521,7 @@ class _Ctx:
 # ------------------------------------------------------------------------------------------------------------
 # Coq terms
 # ------------------------------------------------------------------------------------------------------------
-_NAME_OK = re.compile(r"^[A-Za-z0-9_()*. <>=+-]*$")   # no separator of the digest format
+_NAME_OK = re.compile(r"^[A-Za-z0-9_()*. <>=+`-]*$")   # no separator of the digest format
 
 
 def hint_coq(h):
@@ -538,12 +594,20 @@ def names_ok(run: Run):
 # ------------------------------------------------------------------------------------------------------------
 # scenarios
 # ------------------------------------------------------------------------------------------------------------
-BASES = ("df", "jn", "o2", "u")
+BASES = ("df", "jn", "o2", "u", "star")
+
+
+def base_of(state):
+    return BASE_OF.get(state, "df")
+
+
+def dname_of(state):
+    return "d" if STATES[state] else base_of(state)
 
 
 def needed_bases(state, fkeys):
-    need = {"df"}
-    for key in list(STATES[state]) + [k for k, _ in fkeys] + ["child_join"]:
+    need = {base_of(state)}
+    for key in list(STATES[state]) + [k for k, _ in fkeys] + ([] if state in BASE_OF else ["child_join"]):
         o = ALPHABET[key]["other"]
         if o in BASES:
             need.add(o)
@@ -552,21 +616,21 @@ def needed_bases(state, fkeys):
 
 def build_state(run: Run, state: str, fkeys=()):
     """base tables, `d` in the requested last-operation state, and relatives that exist BEFORE the follow-up:
-    a child c1 = d.where(..); for states with pending hints also c2 = c1.join(jn) and c3 = d.join(jn), which share
-    d's hint objects"""
+    a child c1 = d.where(..) (d.limit(5) for a star frame); for states with pending hints also c2 = c1.join(jn) and
+    c3 = d.join(jn), which share d's hint objects"""
     for v in needed_bases(state, fkeys):
         run.create(v)
-    cur = "df"
+    cur = base_of(state)
     for i, key in enumerate(STATES[state]):
         nv = "d" if i == len(STATES[state]) - 1 else f"m{i}"
         run.call(cur, key, nv, snap=False)
         if run.steps[-1]["raised"] or run.steps[-1]["newvar"] is None:
             raise Raised(f"state builder {key} failed: {run.steps[-1]['raised']}")
         cur = nv
-    d_name = "d" if STATES[state] else "df"
-    run.call(d_name, "child_where", "c1", snap=False)
+    d_name = dname_of(state)
+    run.call(d_name, "limit5" if state in BASE_OF else "child_where", "c1", snap=False)
     if run.steps[-1]["raised"]:
-        raise Raised("child_where failed")
+        raise Raised("child failed")
     cols = [c.lower() for c in run.vars[d_name].expression.named_selects]
     if cols[0] == "a" and (state in HINT_STATES or state == "FROM_join"):
         run.call("c1", "child_join", "c2", snap=False)
@@ -578,13 +642,18 @@ def build_state(run: Run, state: str, fkeys=()):
 
 def observed_vars(run: Run, before_vars, involved, thorough):
     """which existing DataFrames get a black-box look: everything derived from the data + the tables involved"""
-    return [v for v in before_vars if thorough or v not in BASES or v == "df" or v in involved]
+    return [v for v in before_vars if thorough or v not in BASES or v in ("df", "star") or v in involved]
 
 
 def observe_round(run: Run, vars_, rnd, dname, thorough, involved):
+    sa = run.engine == "standalone"
     for i, v in enumerate(vars_):
         collect = thorough or v == dname or v in involved
-        run.observe(v, rnd, collect=collect, snap=(i == len(vars_) - 1))
+        run.observe(v, rnd, collect=collect, snap=(i == len(vars_) - 1) and not sa)
+    if sa and vars_:
+        # no statement reaches an engine there (the model's observation counts one): the white-box comparison of this
+        # round is attached to a trailing `columns` access instead
+        run.call(dname, "columns", snap=True)
 
 
 _CONTROL = {}
@@ -597,12 +666,11 @@ def control(state, thorough):
     if key not in _CONTROL:
         B = Run(with_schema=thorough)
         # the control creates every base table; observations are compared per variable, so extra ones do no harm
-        dname = build_state(B, state, CONTROL_KEYS)
+        dname = build_state(B, state, () if state in BASE_OF else CONTROL_KEYS)
         before = list(B.order)
         vars_ = observed_vars(B, before, set(before), True)   # control observes every variable
         nstep = len(B.steps)
-        for i, v in enumerate(vars_):
-            B.observe(v, 1, collect=True, snap=(i == len(vars_) - 1))
+        observe_round(B, vars_, 1, dname, True, set(vars_))
         _CONTROL[key] = {"obs": {v: B.obs[(v, 1)] for v in vars_}, "obs_order": [v for v, _ in B.obs_order],
                          "case": case_coq(B.steps, nstep, 0), "ok": names_ok(B)}
     return _CONTROL[key]
@@ -738,8 +806,8 @@ def _worker(args):
     import warnings
     logging.disable(logging.CRITICAL)
     warnings.filterwarnings("ignore")
-    specs, thorough = args
-    get_session()
+    specs, thorough, engine = args
+    get_session(engine)
     out = []
     t = time.process_time()
     for state, fkeys, proto in specs:
@@ -759,7 +827,8 @@ CORE_STATES = ["WHERE", "HINT_join"]
 
 
 REDUCED_KEYS = ["select_mixed", "select_alias", "select_none", "agg_alias", "withColumn_case", "withColumns",
-                "rename_clash", "where", "orderBy", "limit", "distinct", "drop", "dropna", "fillna", "toDF", "groupBy_agg",
+                "rename_clash", "where", "orderBy", "limit", "distinct", "drop", "dropna", "fillna", "toDF_case", "groupBy_agg_case",
+                "unpivot_case",
                 "cube_count", "join_name", "union", "unpivot", "alias", "hint_broadcast", "repartition", "collect", "head",
                 "count", "isEmpty", "schema", "sql", "getitem", "cache"]
 
@@ -781,7 +850,7 @@ def corpus():
         try:
             with open(os.path.join(core.VERIF, k["replay"])) as f:
                 r = json.load(f)["replay"]
-            dname = "d" if STATES[r["state"]] else "df"
+            dname = dname_of(r["state"])
             fk = [(x["key"], None if x["receiver"] == dname else x["receiver"]) for x in r["follow_up"]]
             if all(key in ALPHABET for key, _ in fk):
                 out.append((r["state"], fk, r.get("protocol", "A")))
@@ -792,14 +861,28 @@ def corpus():
 
 def plan(ctx):
     rnd = random.Random(ctx.seed)
-    follow = [k for k, a in ALPHABET.items() if a["group"] in ("transformation", "action", "metadata", "accessor")]
+    follow_all = [k for k, a in ALPHABET.items() if a["group"] in ("transformation", "action", "metadata", "accessor")]
+    follow = [k for k in follow_all if k not in ("cache_base", "persist_base")]    # DuckDB shadows BaseDataFrame.cache/persist
     thorough = ctx.tier == "thorough"
-    states = list(STATES) if thorough else QUICK_STATES
+    states = [s_ for s_ in STATES if s_ not in BASE_OF and not s_.startswith("SA:")] if thorough else QUICK_STATES
     reduced = reduced_alphabet(follow)
     scen = corpus()
     for state in states:
         for k in (follow if thorough or state in CORE_STATES else reduced):
             scen.append((state, [(k, None)], "A"))
+    # a frame with a bare `*` projection: the follow-ups that need no column name
+    for state in BASE_OF:
+        for k in STAR_KEYS:
+            scen.append((state, [(k, None)], "A"))
+    # Standalone (no connection): transformations and accessors; cache()/persist() are BaseDataFrame's own there
+    sa_follow = [k for k in follow_all if ALPHABET[k]["group"] in ("transformation", "accessor")
+                 and k not in ("cache", "persist", "lineage")]
+    sa_quick = [k for k in sa_follow if k in REDUCED_KEYS or k in ("cache_base", "persist_base", "toDF_case", "columns", "sql_unopt")]
+    for state in (s_ for s_ in STATES if s_.startswith("SA:")):
+        for k in (sa_follow if thorough else sa_quick):
+            scen.append((state, [(k, None)], "A"))
+        for k in ("sql", "where", "cache_base"):
+            scen.append((state, [(k, None)], "C"))
     # before/after on the same objects (observation first)
     writers = [k for k in follow if ALPHABET[k]["name"] in DISPLAY_METHODS or k in ("alias", "collect", "isEmpty", "corr", "where")]
     for state in states:
@@ -815,7 +898,7 @@ def plan(ctx):
     core_ = ["select_mixed", "withColumn_case", "rename_clash", "agg_alias", "where", "orderBy", "limit", "join_name",
              "union_self", "alias", "hint_broadcast", "collect", "count", "sql", "drop", "distinct", "groupBy_count"]
     pairs = []
-    for state in STATES:
+    for state in (s_ for s_ in STATES if s_ not in BASE_OF and not s_.startswith("SA:")):
         for k1 in core_:
             for k2 in core_:
                 for r1, r2 in ((None, "c1"), ("c1", None), (None, None)):
@@ -830,15 +913,22 @@ def run_impl(ctx, scen):
     deadline keeps the tier inside its budget -- scenarios not started by then are dropped and COUNTED"""
     from concurrent.futures import ProcessPoolExecutor, as_completed
     import multiprocessing as mp
-    nproc = 8
-    nchunk = nproc * (4 if ctx.tier == "quick" else 40)
-    chunks = [c for c in (scen[i::nchunk] for i in range(nchunk)) if c]
     thorough = ctx.tier == "thorough"
     deadline = time.time() + (150 if ctx.tier == "quick" else 780)
     results, dropped, cancelled = [], 0, False
-    ex = ProcessPoolExecutor(max_workers=nproc, mp_context=mp.get_context("fork"))
+    pools, futs = [], {}
     try:
-        futs = {ex.submit(_worker, (c, thorough)): c for c in chunks}
+        # sqlframe sessions are process-wide singletons: one pool of worker processes per engine (<= 8 processes in all)
+        for engine, nproc in (("duckdb", 6), ("standalone", 2)):
+            part = [sc for sc in scen if engine_of(sc[0]) == engine]
+            if not part:
+                continue
+            nchunk = nproc * (4 if ctx.tier == "quick" else 40)
+            ex = ProcessPoolExecutor(max_workers=nproc, mp_context=mp.get_context("fork"))
+            pools.append(ex)
+            for c in (part[i::nchunk] for i in range(nchunk)):
+                if c:
+                    futs[ex.submit(_worker, (c, thorough, engine))] = c
         for f in as_completed(futs):
             if f.cancelled():
                 continue
@@ -849,7 +939,8 @@ def run_impl(ctx, scen):
                     if g.cancel():
                         dropped += len(futs[g])
     finally:
-        ex.shutdown(wait=True, cancel_futures=True)
+        for ex in pools:
+            ex.shutdown(wait=True, cancel_futures=True)
     if dropped:
         ctx.log(f"deadline reached: {dropped} scenarios were not run")
     ctx.coverage["scenarios_dropped_by_deadline"] = dropped
@@ -1071,9 +1162,9 @@ def replay(ctx: core.Ctx, rp: dict) -> int:
         print(json.dumps(rp, indent=1)[:3000])
         return 0
     state = r["state"]
-    dname = "d" if STATES[state] else "df"
+    dname = dname_of(state)
     fkeys = [(f["key"], None if f["receiver"] == dname else f["receiver"]) for f in r["follow_up"]]
-    get_session()
+    get_session(engine_of(state))
     sc = scenario(state, fkeys, r.get("protocol", "A"))
     if sc.get("skip"):
         print("scenario could not be built:", sc["skip"])
